@@ -838,6 +838,11 @@ func (c *FnCtx) convertTo(v string, from, to types.Type, st *State) string {
 
 func (c *FnCtx) evalComposite(x *ast.CompositeLit, st *State) string {
 	t := c.typeOf(x)
+	if pt, ok := t.Underlying().(*types.Pointer); ok && x.Type == nil {
+		// elided `&T` in a []*T / map[K]*T literal: go/types records the pointer type; the value built here is
+		// the pointee (evalElt allocates it)
+		t = pt.Elem()
+	}
 	switch u := t.Underlying().(type) {
 	case *types.Struct:
 		vals := make([]string, u.NumFields())
@@ -945,6 +950,9 @@ func (c *FnCtx) frameOblige(st *State, kind, obj, field string, structT types.Ty
 	allowed := []string{not(sel(entryAlloc, obj))}
 	if c.con.ModHeap {
 		return
+	}
+	if c.frameExtraAllow != "" {
+		allowed = append(allowed, c.frameExtraAllow)
 	}
 	for _, m := range c.con.Modifies {
 		switch {
